@@ -6,6 +6,16 @@ V = os.path.dirname(os.path.dirname(os.path.abspath(__file__)))
 props = [json.loads(l) for l in open(os.path.join(V, "properties.jsonl"))]
 
 claimed = {
+ "C02": dict(
+   level="exploration", technique="property-based testing (rapid): generated IOS (device,target) pairs, script executed on an independent strict IOS model (sequence numbers, resequence, numbered inserts, no N), result compared per run of same-action entries; second compare must be empty",
+   text="Generated IOS pairs (block structure, remarks, log variants, IOS-XE numbers, shared ACLs, VRFs, crypto filter ACLs, routes) are run through the real compare; the script is executed on the IOS model and every managed interface must filter as the target (runs of same-action entries compared as multisets), routes of managed VRFs equal, second compare empty, 'unchanged' only if equivalent. Known root causes F18/F20 are set aside by signature.",
+   note="Trusted: harness IOS model (harness/iosm), calibrated on the repository's expected outputs (TestCorpusIOS).",
+   ref="DESIGN.md §3 C02"),
+ "C19": dict(
+   level="fault_enumeration", technique="property-based testing (rapid) over histories of commits/runs/kills around the unmodified newpolicy.sh plus enumeration of every kill position (DEBUG-trap injection via BASH_ENV)",
+   text="Histories of good/bad commits, undisturbed runs, runs killed at the k-th simple command, simultaneous invocations and manual removal of 'current' are executed against the unmodified bin/newpolicy.sh with a local bare repository and stub compiler; after every action the link/number/compile invariants are checked and a final undisturbed run must promote the newest compiling revision. Thorough enumerates every kill position of a run. Known root cause F9/F9b (stale next/) is set aside by signature.",
+   note="Trusted: bash DEBUG trap as kill-point enumerator (simple-command boundaries only), stub netspoc compiler, kernel flock; concurrent arm is OS-scheduled.",
+   ref="DESIGN.md §3 C19"),
  "C07": dict(
    level="exploration", technique="property-based testing (rapid): device decorated with out-of-scope content; frame condition checked on the model after every executed command",
    text="Generated pairs whose device side carries content outside Netspoc's scope; the protected set is computed by the harness from the property's definition (independently of the tool's needed/toDelete marking) and its text must be identical after every step of the emitted script executed on the model.",
